@@ -111,6 +111,8 @@ pub trait FxSign: Fx {
     fn p_abs(_x: Self) -> Option<Self> { None }
     fn p_signum(_x: Self) -> Option<Self> { None }
     fn p_npot(_x: Self) -> Option<Self> { None }
+    fn p_cnpot(_x: Self) -> Option<Option<Self>> { None }
+    fn p_is_pow2(_x: Self) -> Option<bool> { None }
 }
 macro_rules! impl_sign {
     (signed $Fixed:ident, $LeEq:ident) => {
@@ -128,6 +130,8 @@ macro_rules! impl_sign {
             fn w_npot(x: sf::Wrapping<Self>) -> Option<sf::Wrapping<Self>> { Some(x.next_power_of_two()) }
             fn w_is_pow2(x: sf::Wrapping<Self>) -> Option<bool> { Some(x.is_power_of_two()) }
             fn p_npot(x: Self) -> Option<Self> { Some(x.next_power_of_two()) }
+            fn p_cnpot(x: Self) -> Option<Option<Self>> { Some(x.checked_next_power_of_two()) }
+            fn p_is_pow2(x: Self) -> Option<bool> { Some(x.is_power_of_two()) }
         }
     };
 }
